@@ -5,7 +5,11 @@ import json
 import os
 
 rows = []
+import sys
+ONLY = sys.argv[1:]      # e.g. -e -f : only these variants
 for d in sorted(glob.glob("/verif/seeded/*")):
+    if ONLY and not any(os.path.basename(d).endswith(x) for x in ONLY):
+        continue
     try:
         m = json.load(open(os.path.join(d, "meta.json")))
     except Exception:
@@ -16,8 +20,19 @@ for d in sorted(glob.glob("/verif/seeded/*")):
     chk = ev.get("checks", {}).get(pid, {})
     keys = "; ".join(sorted(set((k.get("key") or "?").split(":")[0] + (" (no input)" if k.get("no_failing_input") else "") for k in chk.get("first", []))))[:80]
     others = ", ".join("%s:%s" % (c, "fires" if v.get("exit") == 1 else "quiet") for c, v in ev.get("checks", {}).items() if c != pid)
+    later = ""
+    for r in m.get("reevaluations", []):
+        lk = "; ".join(sorted(set((k.get("key") or "?").split(":")[0] + (" (no input)" if k.get("no_failing_input") else "") for k in r.get("first", []))))[:60]
+        later = "%s at %s: %s" % ("**caught**" if r.get("detected") else "missed", r.get("verif_commit"), lk)
+    if ev.get("detected"):
+        verdict = "**caught**"
+    elif later:
+        verdict = "missed at first; " + later
+        keys = ""
+    else:
+        verdict = "MISSED"
     rows.append("| %s | %s | %s | %s | %s | %s |" % (name, (m.get("summary") or "")[:150].replace("|", "/"), "yes" if ev.get("confirmed") else "NO",
-                                                    "**caught**" if ev.get("detected") else "MISSED", keys, others))
+                                                    verdict, keys, others))
 print("| seeded change | what it does | confirmed (builds, 17 tests pass, demo fails) | check of its property | violation keys | other checks run |")
 print("|---|---|---|---|---|---|")
 print("\n".join(rows))
